@@ -405,6 +405,7 @@ def build_loop_multi(run, funcs, pid, ncand=3):
                 d = DIMN[dim]
                 what = '%s: the builder stops after %d of %d candidates although the next one is not farther than the safety radius' % (tag, nclip, ncand)
                 extra = [OR.scenario(d, per, n, None, seed=sd) for per in (False, True) for n in (3, 4, 5) for sd in (0, 1)]
+                extra = OR.clustered_scenarios(d, False) + OR.clustered_scenarios(d, True) + extra
                 if not OR.confirm_family(pid, run, what, d, False, None, (0, 1), extra=extra):
                     run.suspect.append(what + ' (no public-API scenario shows a difference)')
         if not seen_full:
